@@ -54,6 +54,10 @@ type normalizer struct {
 	decl    map[types.Object]*ast.FuncDecl
 	declPkg map[types.Object]*packages.Package
 	closure map[types.Object]*ast.FuncLit // single-assignment local closures (`f := func(..){..}`, only ever called)
+	// the statement that defines such a closure and nothing else (`f := func..`, `var f = func..`): when every call
+	// of the closure was inlined the statement is dropped, so that the variables the literal captured are ordinary
+	// locals again (a captured variable is a heap cell in SSA form, not a value the rules can follow)
+	closureDef map[types.Object]ast.Stmt
 	src     map[string][]byte
 	n       int
 	busy    map[types.Object]bool
@@ -325,7 +329,11 @@ func headerExprs(s ast.Stmt) (exprs []ast.Expr, ok bool) {
 
 // findSite finds, in the header of statement s, the lexically first call; if it is a call of a new
 // helper it is returned together with the short-circuit guard under which it is evaluated.
-func (nz *normalizer) findSite(info *types.Info, s ast.Stmt) (site *inlineSite, guard string, ok bool) {
+//
+// skip holds the calls of this header that were lifted already (their value is a temporary now, nothing of them is
+// evaluated by the statement any more): the site returned is then the lexically first call AFTER them, i.e. the
+// next call the statement executes. Lifting it behind the earlier ones keeps the order of the calls.
+func (nz *normalizer) findSite(info *types.Info, s ast.Stmt, skip map[*ast.CallExpr]bool) (site *inlineSite, guard string, ok bool) {
 	exprs, okH := headerExprs(s)
 	if !okH {
 		return nil, "", false
@@ -348,6 +356,10 @@ func (nz *normalizer) findSite(info *types.Info, s ast.Stmt) (site *inlineSite, 
 			path = path[:len(path)-1]
 			return false
 		case *ast.CallExpr:
+			if skip[x] {
+				path = path[:len(path)-1]
+				return false
+			}
 			// a new helper: its receiver and arguments are bound, in order, by the expansion itself
 			if cal := typeutil.Callee(info, x); cal != nil && nz.liftable(cal) { // [std] was isNewHelper
 				first = x
@@ -487,8 +499,7 @@ func (nz *normalizer) bodyText(callee types.Object, label string, results []stri
 	defer delete(nz.busy, callee)
 	file := nz.fileOf(pk, d)
 	edits := nz.stmtEdits(pk, file, d.Body)
-	// [std] fix: a closure of the callee whose calls were inlined stays "used" in the inlined copy as well
-	edits = append(edits, nz.closureKeepEdits(d.Body.Pos(), d.Body.End())...)
+	// (a closure of the callee whose calls were inlined stays "used", or is dropped, in the inlined copy as well: closureEdits)
 	if len(nz.subst) > 0 {
 		ast.Inspect(d.Body, func(n ast.Node) bool {
 			if c, ok := n.(*ast.CallExpr); ok {
@@ -706,6 +717,7 @@ func (nz *normalizer) stmtEdits(pk *packages.Package, file *ast.File, root ast.N
 	var edits []textEdit
 	info := pk.TypesInfo
 	seq := 0
+	lifted := map[*ast.CallExpr]bool{} // the calls this walk replaced by the temporaries of their expansion
 	var handle func(s ast.Stmt, elseIf bool)
 	handle = func(s ast.Stmt, elseIf bool) {
 		target := s
@@ -799,57 +811,76 @@ func (nz *normalizer) stmtEdits(pk *packages.Package, file *ast.File, root ast.N
 			nz.Log = append(nz.Log, fmt.Sprintf("inlined %s as a function literal at %s", objName(callee), nz.fset.Position(call.Pos())))
 			return
 		}
-		site, guard, ok := nz.findSite(info, target)
-		if !ok {
-			return
-		}
-		sig := site.callee.Type().(*types.Signature)
-		if guard != "" && (sig.Results().Len() != 1) {
-			return
-		}
-		// [std] begin: standard-library helpers are expanded by normalize_std.go; a call whose operands are
-		// declared by the init statement of the same header cannot be lifted in front of it
-		var prelude string
-		var temps []string
-		if nz.isStd(site.callee) {
-			prelude, temps, ok = nz.stdExpansion(pk, file, site, target)
-		} else if nz.usesHeaderDecl(info, target, site) {
-			nz.Log = append(nz.Log, fmt.Sprintf("not inlined: %s (an operand is declared in the same statement header at %s)", objName(site.callee), nz.fset.Position(site.call.Pos())))
-			return
-		} else {
-			prelude, temps, ok = nz.expansion(pk, file, site, guard)
-		}
-		var replaced ast.Node = site.call
-		if site.replace != nil {
-			replaced = site.replace
-		}
-		// [std] end
-		if !ok {
-			return
-		}
-		repl := strings.Join(temps, ", ")
-		if es, isES := target.(*ast.ExprStmt); isES && es.X == ast.Expr(site.call) {
-			// result discarded
+		// The calls of the header are lifted one after the other, in the order the statement executes them: the
+		// lexically first call, then - behind it - the first call after it, and so on, for as long as each of them
+		// is a plain, unguarded call of a new helper (`return f(a), f(b), f(c)`). The first call that is not (a
+		// pinned or library function, a call under a short-circuit operator, a standard helper) ends the run: a
+		// helper behind it would be executed before it.
+		skip := map[*ast.CallExpr]bool{}
+		opened := false
+		for round := 0; round < 16; round++ {
+			site, guard, ok := nz.findSite(info, target, skip)
+			if !ok {
+				break
+			}
+			sig := site.callee.Type().(*types.Signature)
+			if guard != "" && (sig.Results().Len() != 1) {
+				break
+			}
+			if round > 0 && (guard != "" || nz.isStd(site.callee)) {
+				break
+			}
+			// [std] begin: standard-library helpers are expanded by normalize_std.go; a call whose operands are
+			// declared by the init statement of the same header cannot be lifted in front of it
+			var prelude string
+			var temps []string
+			if nz.isStd(site.callee) {
+				prelude, temps, ok = nz.stdExpansion(pk, file, site, target)
+			} else if nz.usesHeaderDecl(info, target, site) {
+				nz.Log = append(nz.Log, fmt.Sprintf("not inlined: %s (an operand is declared in the same statement header at %s)", objName(site.callee), nz.fset.Position(site.call.Pos())))
+				break
+			} else {
+				prelude, temps, ok = nz.expansion(pk, file, site, guard)
+			}
+			var replaced ast.Node = site.call
+			if site.replace != nil {
+				replaced = site.replace
+			}
+			// [std] end
+			if !ok {
+				break
+			}
+			repl := strings.Join(temps, ", ")
+			if es, isES := target.(*ast.ExprStmt); isES && es.X == ast.Expr(site.call) {
+				// result discarded
+				seq++
+				edits = append(edits, textEdit{nz.off(s.Pos()), nz.off(s.Pos()), prelude, seq})
+				seq++
+				edits = append(edits, textEdit{nz.off(site.call.Pos()), nz.off(site.call.End()), "", seq})
+				lifted[site.call] = true
+				break
+			}
+			if len(temps) == 0 {
+				break
+			}
+			open := ""
+			if elseIf && !opened {
+				open = "{ "
+				opened = true
+			}
 			seq++
-			edits = append(edits, textEdit{nz.off(s.Pos()), nz.off(s.Pos()), prelude, seq})
+			edits = append(edits, textEdit{nz.off(s.Pos()), nz.off(s.Pos()), open + prelude, seq})
 			seq++
-			edits = append(edits, textEdit{nz.off(site.call.Pos()), nz.off(site.call.End()), "", seq})
-			return
+			edits = append(edits, textEdit{nz.off(replaced.Pos()), nz.off(replaced.End()), repl, seq}) // [std] was site.call
+			lifted[site.call] = true
+			if guard != "" || site.replace != nil || nz.isStd(site.callee) {
+				break
+			}
+			skip[site.call] = true
 		}
-		if len(temps) == 0 {
-			return
-		}
-		open, closeB := "", ""
-		if elseIf {
-			open, closeB = "{ ", " }"
-		}
-		seq++
-		edits = append(edits, textEdit{nz.off(s.Pos()), nz.off(s.Pos()), open + prelude, seq})
-		seq++
-		edits = append(edits, textEdit{nz.off(replaced.Pos()), nz.off(replaced.End()), repl, seq}) // [std] was site.call
-		if elseIf {
+		if opened {
 			seq++
-			edits = append(edits, textEdit{nz.off(s.End()), nz.off(s.End()), closeB, seq})
+			edits = append(edits, textEdit{nz.off(s.End()), nz.off(s.End()), " }", seq})
 		}
 	}
 	var walkList func(list []ast.Stmt)
@@ -905,13 +936,47 @@ func (nz *normalizer) stmtEdits(pk *packages.Package, file *ast.File, root ast.N
 		}
 		return true
 	})
-	return edits
+	return append(edits, nz.closureEdits(pk, root, lifted)...)
+}
+
+// closureEdits decides, for every inlinable closure defined below root, what becomes of its definition: when
+// every call of the closure (all of them lie in the scope of its variable, hence below root) was replaced by its
+// expansion, the defining statement is dropped - creating a function value has no effect, nothing refers to the
+// variable any more, and the variables the literal captured stop being captured; otherwise the variable stays
+// declared and is kept "used" (`; _ = f`).
+func (nz *normalizer) closureEdits(pk *packages.Package, root ast.Node, lifted map[*ast.CallExpr]bool) []textEdit {
+	var out []textEdit
+	for obj, lit := range nz.closure {
+		if nz.declPkg[obj] != pk || !(root.Pos() <= lit.Pos() && lit.End() <= root.End()) {
+			continue
+		}
+		def := nz.closureDef[obj]
+		all, n := def != nil, 0
+		ast.Inspect(root, func(m ast.Node) bool {
+			if c, ok := m.(*ast.CallExpr); ok {
+				if id, ok := c.Fun.(*ast.Ident); ok && pk.TypesInfo.Uses[id] == obj {
+					n++
+					if !lifted[c] {
+						all = false
+					}
+				}
+			}
+			return true
+		})
+		if all && n > 0 {
+			out = append(out, textEdit{nz.off(def.Pos()), nz.off(def.End()), "", 0})
+			nz.Log = append(nz.Log, fmt.Sprintf("closure %s: every call inlined, definition dropped at %s", obj.Name(), nz.fset.Position(def.Pos())))
+			continue
+		}
+		out = append(out, textEdit{nz.off(lit.End()), nz.off(lit.End()), "; _ = " + obj.Name(), 1 << 19})
+	}
+	return out
 }
 
 // BuildOverlay returns the normalised sources of the files that call new helpers.
 func BuildOverlay(pkgs []*packages.Package, pinned map[string]bool) (map[string][]byte, []string) {
 	nz := &normalizer{pkgs: pkgs, pinned: pinned, decl: map[types.Object]*ast.FuncDecl{}, declPkg: map[types.Object]*packages.Package{},
-		src: map[string][]byte{}, busy: map[types.Object]bool{}, closure: map[types.Object]*ast.FuncLit{}}
+		src: map[string][]byte{}, busy: map[types.Object]bool{}, closure: map[types.Object]*ast.FuncLit{}, closureDef: map[types.Object]ast.Stmt{}}
 	anyNew := false
 	for _, pk := range pkgs {
 		if !strings.HasPrefix(pk.PkgPath, Mod) {
@@ -970,13 +1035,7 @@ func BuildOverlay(pkgs []*packages.Package, pinned map[string]bool) (map[string]
 					delete(nz.busy, self)
 				}
 			}
-			// the variable of an inlined closure stays declared: keep it "used"
-			for obj, lit := range nz.closure {
-				if nz.declPkg[obj] != pk || !(f.Pos() <= lit.Pos() && lit.Pos() < f.End()) {
-					continue
-				}
-				edits = append(edits, textEdit{nz.off(lit.End()), nz.off(lit.End()), "; _ = " + obj.Name(), 1 << 19})
-			}
+			// (the variable of an inlined closure stays declared and "used", or goes with its definition: closureEdits)
 			// flat views: a copy `<name>__flat` of a designated function with its private helpers inlined as well,
 			// placed on the line of the original's closing brace (all other positions stay as they are)
 			for _, d := range f.Decls {
@@ -1045,6 +1104,7 @@ func (nz *normalizer) findClosures(pk *packages.Package, fd *ast.FuncDecl) {
 	info := pk.TypesInfo
 	cands := map[types.Object]*ast.FuncLit{}
 	idents := map[types.Object]*ast.Ident{}
+	defs := map[types.Object]ast.Stmt{}
 	ast.Inspect(fd.Body, func(n ast.Node) bool {
 		switch x := n.(type) {
 		case *ast.AssignStmt:
@@ -1054,6 +1114,18 @@ func (nz *normalizer) findClosures(pk *packages.Package, fd *ast.FuncDecl) {
 						if obj := info.Defs[id]; obj != nil {
 							cands[obj] = lit
 							idents[obj] = id
+							defs[obj] = x
+						}
+					}
+				}
+			}
+		case *ast.DeclStmt:
+			// `var f = func..` as the only specification of its declaration
+			if gd, ok := x.Decl.(*ast.GenDecl); ok && gd.Tok == token.VAR && len(gd.Specs) == 1 {
+				if vs, ok := gd.Specs[0].(*ast.ValueSpec); ok && len(vs.Names) == 1 && len(vs.Values) == 1 {
+					if _, isLit := vs.Values[0].(*ast.FuncLit); isLit {
+						if obj := info.Defs[vs.Names[0]]; obj != nil {
+							defs[obj] = x
 						}
 					}
 				}
@@ -1120,6 +1192,9 @@ func (nz *normalizer) findClosures(pk *packages.Package, fd *ast.FuncDecl) {
 			continue
 		}
 		nz.closure[o] = lit
+		if d := defs[o]; d != nil {
+			nz.closureDef[o] = d
+		}
 		nz.decl[o] = &ast.FuncDecl{Name: idents[o], Type: lit.Type, Body: lit.Body}
 		nz.declPkg[o] = pk
 	}
